@@ -84,7 +84,7 @@ Section Inv.
 
   Lemma good_parts : f_clear_in_finally F = true /\ f_loads_use_clone F = true /\ f_clone_resets F = true /\
                      f_except_restores F = true /\ f_end_restores F = true /\ f_restore_on_primitive F = true /\
-                     f_restore_guarded F = true.
+                     f_restore_on_immutable F = true /\ f_restore_guarded F = true.
   Proof.
     unfold good in Fgood. repeat (apply andb_true_iff in Fgood as [Fgood ?]). repeat split; assumption.
   Qed.
@@ -96,15 +96,15 @@ Section Inv.
 
   Lemma class_effect_instr r u : u_instr u = 0 -> u_instr (class_effect F r u) = 0.
   Proof.
-    destruct good_parts as (_ & _ & _ & He & Hn & Hp & Hgd).
-    unfold class_effect. rewrite He, Hn, Hp, Hgd. unfold when. cbn [negb].
+    destruct good_parts as (_ & _ & _ & He & Hn & Hp & Him & Hgd).
+    unfold class_effect. rewrite He, Hn, Hp, Him, Hgd. unfold when. cbn [negb].
     intro H0. destruct (l_kind r); cbn; rewrite ?H0; reflexivity.
   Qed.
 
   Lemma class_effect_gram r u : u_gram (class_effect F r u) = u_gram u.
   Proof.
     unfold class_effect, when.
-    destruct (f_except_restores F), (f_end_restores F), (f_restore_on_primitive F), (f_restore_guarded F), (l_kind r); reflexivity.
+    destruct (f_except_restores F), (f_end_restores F), (f_restore_on_primitive F), (f_restore_on_immutable F), (f_restore_guarded F), (l_kind r); reflexivity.
   Qed.
 
   Lemma step_new_inv st s c : wf_cfg c -> inv st -> inv (fst (step st (New s c))).
@@ -163,7 +163,7 @@ Section Inv.
   Proof.
     intros I. pose proof I as I0. destruct I as [Igc Igk Ib Is Ii Ig].
     cbn [step]. unfold step_load. destruct (slots st s) as [m|] eqn:Em; [|exact I0].
-    destruct good_parts as (Hc & Hl & Hr & _ & _ & _ & Hgd).
+    destruct good_parts as (Hc & Hl & Hr & _ & _ & _ & _ & Hgd).
     set (c := m_cfg m). set (r := load_out c i (view_of st m)).
     destruct (Is s m Em) as (Hd & Hmc & Hst & Hwf & Hgr & Hok).
     constructor; cbn [fst gparsers base_cache slots classes].
@@ -317,11 +317,11 @@ End Inv.
 
 (* ------------------------------------------------------------------ necessity: what breaks it *)
 Definition good_facts : facts := {| f_gp_key_memo := false; f_clear_in_finally := true; f_loads_use_clone := true;
-  f_clone_resets := true; f_except_restores := true; f_end_restores := true; f_restore_on_primitive := true; f_restore_guarded := true |}.
+  f_clone_resets := true; f_except_restores := true; f_end_restores := true; f_restore_on_primitive := true; f_restore_on_immutable := true; f_restore_guarded := true |}.
 
 (* the code before the fix: a primitive model leaves the user classes instrumented *)
 Definition prefix_facts : facts := {| f_gp_key_memo := false; f_clear_in_finally := true; f_loads_use_clone := true;
-  f_clone_resets := true; f_except_restores := true; f_end_restores := true; f_restore_on_primitive := false; f_restore_guarded := true |}.
+  f_clone_resets := true; f_except_restores := true; f_end_restores := true; f_restore_on_primitive := false; f_restore_on_immutable := false; f_restore_guarded := true |}.
 
 Definition wit_cfg : cfg := {| c_gram := 0; c_memo := false; c_debug := false; c_base := true; c_classes := [7]; c_repo := false; c_root_user := false; c_opts := 0 |}.
 Definition wit_create (_ : cfg) (_ : gview) : cres := {| k_kind := COk; k_dump := 0 |}.
@@ -342,9 +342,31 @@ Lemma prim_leak_fixed :
   = result good_facts wit_create wit_load (final good_facts wit_create wit_load [New 0 wit_cfg]) (Load 0 1).
 Proof. vm_compute. reflexivity. Qed.
 
+(* a restore limited to int/float/str/bool models (`type(model) in PRIMITIVE_PYTHON_TYPES`): a root value of another
+   immutable type (a match rule converted to Decimal, a tuple ...) leaves the classes instrumented *)
+Definition primonly_facts : facts := {| f_gp_key_memo := false; f_clear_in_finally := true; f_loads_use_clone := true;
+  f_clone_resets := true; f_except_restores := true; f_end_restores := true; f_restore_on_primitive := true;
+  f_restore_on_immutable := false; f_restore_guarded := true |}.
+(* input 0: a primitive model, input 2: a non-primitive immutable model; other inputs show the counters they start from *)
+Definition wit_load_imm (c : cfg) (i : nat) (v : view) : lres :=
+  match i with
+  | 2 => {| l_kind := LOkImm; l_dump := 0; l_leak := []; l_files := [] |}
+  | _ => wit_load c i v
+  end.
+
+Lemma immutable_model_leak_refuted :
+  result primonly_facts wit_create wit_load_imm (final primonly_facts wit_create wit_load_imm [New 0 wit_cfg; Load 0 0; Load 0 2]) (Load 0 1)
+  <> result primonly_facts wit_create wit_load_imm (final primonly_facts wit_create wit_load_imm [New 0 wit_cfg]) (Load 0 1).
+Proof. vm_compute. discriminate. Qed.
+
+Lemma immutable_model_primitive_ok :
+  result primonly_facts wit_create wit_load_imm (final primonly_facts wit_create wit_load_imm [New 0 wit_cfg; Load 0 0]) (Load 0 1)
+  = result primonly_facts wit_create wit_load_imm (final primonly_facts wit_create wit_load_imm [New 0 wit_cfg]) (Load 0 1).
+Proof. vm_compute. reflexivity. Qed.
+
 (* without the clearing in `finally`, a memoizing load leaves entries that the next load of the metamodel reads *)
 Definition noclear_facts : facts := {| f_gp_key_memo := false; f_clear_in_finally := false; f_loads_use_clone := true;
-  f_clone_resets := true; f_except_restores := true; f_end_restores := true; f_restore_on_primitive := true; f_restore_guarded := true |}.
+  f_clone_resets := true; f_except_restores := true; f_end_restores := true; f_restore_on_primitive := true; f_restore_on_immutable := true; f_restore_guarded := true |}.
 Definition wit_cfg_memo : cfg := {| c_gram := 0; c_memo := true; c_debug := false; c_base := true; c_classes := []; c_repo := false; c_root_user := false; c_opts := 0 |}.
 
 Lemma no_clear_refuted :
@@ -356,7 +378,7 @@ Proof. vm_compute. discriminate. Qed.
    parse) un-instruments the classes of the enclosing load; the half-built model stays in the global
    repository and the next load of the file sees it *)
 Definition unguarded_facts : facts := {| f_gp_key_memo := false; f_clear_in_finally := true; f_loads_use_clone := true;
-  f_clone_resets := true; f_except_restores := true; f_end_restores := true; f_restore_on_primitive := true; f_restore_guarded := false |}.
+  f_clone_resets := true; f_except_restores := true; f_end_restores := true; f_restore_on_primitive := true; f_restore_on_immutable := true; f_restore_guarded := false |}.
 Definition wit_cfg_repo : cfg := {| c_gram := 3; c_memo := false; c_debug := false; c_base := false; c_classes := [5]; c_repo := true;
                                     c_root_user := true; c_opts := 0 |}.
 (* input 3 imports a file that does not parse; a stale repository entry turns the error into a "model" *)
